@@ -9,7 +9,8 @@ from tcv.hyp import Violation
 
 LEVEL = 'exploration'
 RULE = (
-    'A case = cache type (JsonCache, NumpyArrayCache, DataFrameCache), initial state of the entry (absent / populated), '
+    'A case = cache type (JsonCache, NumpyArrayCache, DataFrameCache), initial state of the entry (absent / populated / '
+    'a truncated file left by an earlier accident), '
     '2-3 callers (real threads) each performing get, get_or_compute or get_or_compute(force=True) on ONE key, the number '
     'of chunks every write is split into (1-3, each flushed), and a SCHEDULE. The harness owns the schedule: '
     'taskchain.cache.FileLock is replaced by a subclass with real flock semantics whose acquire/release are yield points '
@@ -175,6 +176,13 @@ def eval_case(case, rec, count=True):
             initial = make_value(ctype, 'initial', 3)
             cache.get_or_compute(key, lambda: initial)
             produced['initial'] = initial
+        damaged = bool(case.get('damaged')) and case['populated']
+        if damaged:
+            # the entry on disk is a truncated one (left by some earlier accident): nobody may return it
+            fp = cache.filepath(key)
+            raw = fp.read_bytes()
+            fp.write_bytes(raw[:max(1, len(raw) // 2)])
+            del produced['initial']
         s = coop.Sched(case.get('schedule', []), chunks=case['chunks'], segments=case.get('segments'))
         computes = {}
 
@@ -217,11 +225,11 @@ def eval_case(case, rec, count=True):
         # completeness timeline of THE ENTRY (the final path of the key); writes to other names (temporary files that
         # are renamed into place) do not make the entry incomplete
         final_path = str(cache.filepath(key))
-        state = 'complete' if case['populated'] else 'absent'
-        timeline = [(0, state, 'initial' if case['populated'] else None)]
+        state = ('incomplete' if damaged else 'complete') if case['populated'] else 'absent'
+        timeline = [(0, state, 'initial' if case['populated'] and not damaged else None)]
         writer_tag = {}
         wrote_tag_at = {}
-        last_complete = 'initial' if case['populated'] else None
+        last_complete = 'initial' if case['populated'] and not damaged else None
         for e in ev:
             if e['kind'] == 'compute-exit':
                 writer_tag[e['caller']] = e['tag']
@@ -301,7 +309,10 @@ def eval_case(case, rec, count=True):
                         overlap = True
         # quiescence
         final = make_cache(ctype, tmp / 'c').get(key)
-        if last_complete is None:
+        if last_complete is None and damaged:
+            if final is not tc.NO_VALUE:
+                raise Violation('damaged-entry-returned-at-quiescence', dict(info, got=repr(final)[:100]))
+        elif last_complete is None:
             if final is not tc.NO_VALUE:
                 raise Violation('phantom-entry-at-quiescence', dict(info, got=repr(final)[:100]))
         else:
@@ -310,7 +321,7 @@ def eval_case(case, rec, count=True):
                     info, last_writer=last_complete, got=repr(final)[:200]))
         if count:
             cl = ['type:' + ctype, 'ops:' + '+'.join(sorted(case['ops'])), f'chunks={case["chunks"]}',
-                  'populated' if case['populated'] else 'empty']
+                  ('damaged' if damaged else 'populated') if case['populated'] else 'empty']
             if overlap:
                 cl.append('overlap-with-writer')
             cl.append('schedule:segments' if case.get('segments') is not None else 'schedule:choices')
@@ -343,6 +354,7 @@ def cases(draw, n_callers=(2, 3)):
         return {
             'ctype': draw(st.sampled_from(['json', 'json', 'numpy', 'frame', 'numpy-large'])),
             'populated': draw(st.booleans()),
+            'damaged': draw(st.integers(0, 3)) == 0,
             'ops': [draw(st.sampled_from(OPS)) for _ in range(n)],
             'chunks': draw(st.integers(1, 3)),
             'segments': draw(st.lists(st.tuples(st.integers(0, n - 1), st.integers(1, 16)).map(list), min_size=2,
@@ -351,6 +363,7 @@ def cases(draw, n_callers=(2, 3)):
     return {
         'ctype': draw(st.sampled_from(['json', 'json', 'numpy', 'frame', 'numpy-large', 'numpy-large'])),
         'populated': draw(st.booleans()),
+        'damaged': draw(st.integers(0, 3)) == 0,
         'ops': [draw(st.sampled_from(OPS)) for _ in range(n)],
         'chunks': draw(st.integers(1, 3)),
         'schedule': draw(st.lists(st.integers(0, 2), min_size=60, max_size=90)),
